@@ -258,3 +258,13 @@ ALL = [
     (ISUB_NODES, "knotspace", "KnotVector.__isub__", None),
     (IMUL, "knotspace", "KnotVector.__imul__", None),
 ]
+
+
+# ---- degree setter, convert -------------------------------------------------------------------------
+SET_DEGREE = mk("degree.setter", params={"self": "obj:KnotVector", "value": "int"}, calls=METHOD_CALLS,
+                ensures=["implies(value == p, same(self.internal, OLD))",
+                         "implies(value > p, len(self.internal.U) > len(U))", "implies(value < p, len(self.internal.U) < len(U))"],
+                raises={"ValueError": None}, exc_ensures={"*": UNCHANGED}, canary="same(self.internal, OLD)",
+                covers=["value == p", "value == p + 2", "value == p - 1"])
+
+ALL.append((SET_DEGREE, "knotspace", "KnotVector.degree", "degree.setter"))
